@@ -222,8 +222,11 @@ func newWorld(seed int64) *world {
 	w.put("X0", make([]byte, 256))
 	w.put("X1", h("X1", 256))
 	w.put("D0", []byte{})
-	w.put("D1", []byte{0, 0, 0, 0, 0, 0, 0, 1})
-	w.put("D2", []byte{0, 0, 0, 0, 0, 0, 0, 2})
+	// D1 and D2 differ only in the case of two ASCII letters (a comparison that folds case takes them for equal), D3 differs
+	// from both in a non-letter byte
+	w.put("D1", []byte("perunAbc"))
+	w.put("D2", []byte("perunabC"))
+	w.put("D3", []byte{0, 0, 0, 0, 0, 0, 0, 2})
 	w.bytesO["R1"] = h("R1", 256)
 	return w
 }
@@ -290,7 +293,7 @@ func (w *world) tokBytes(t tok) []byte {
 	case "raw":
 		return fit(w.b(t.S), t.L)
 	case "big":
-		b := big.NewInt(t.N).Bytes()
+		b := bigOf(t.N).Bytes()
 		return append([]byte{byte(len(b))}, b...)
 	case "bigraw":
 		b := make([]byte, t.L)
@@ -379,10 +382,21 @@ func (w *world) narr(a []absMap) []map[wallet.BackendID]wire.Address {
 	return out
 }
 
+// bigOf concretises an abstract amount: -1 and -2 stand for the extreme integers of the maximal length of 128 bytes.
+func bigOf(x int64) *big.Int {
+	switch x {
+	case -1: // 2^1024 - 1
+		return new(big.Int).Sub(new(big.Int).Lsh(big.NewInt(1), 1024), big.NewInt(1))
+	case -2: // 2^1016
+		return new(big.Int).Lsh(big.NewInt(1), 1016)
+	}
+	return big.NewInt(x)
+}
+
 func bigs(v []int64) []channel.Bal {
 	out := make([]channel.Bal, len(v))
 	for i, x := range v {
-		out[i] = big.NewInt(x)
+		out[i] = bigOf(x)
 	}
 	return out
 }
@@ -600,6 +614,11 @@ func pBig(b *big.Int) int64 {
 		return -999
 	}
 	if !b.IsInt64() {
+		for _, code := range []int64{-1, -2} {
+			if b.Cmp(bigOf(code)) == 0 {
+				return code
+			}
+		}
 		return -998
 	}
 	return b.Int64()
